@@ -17,97 +17,220 @@ LIMIT_MS = 80
 # ------------------------------------------------------------------ source -> Params.v
 
 
+def _strip(code):
+    code = re.sub(r"#if\s+0\b.*?#endif", "", code, flags=re.S)
+    return re.sub(r"//[^\n]*|/\*.*?\*/", "", code, flags=re.S)
+
+
+def _body_after(code, sig_rx):
+    """text between the braces that follow the first match of sig_rx (brace matching, no dependence on the layout)"""
+    m = re.search(sig_rx, code, flags=re.S)
+    if not m:
+        return None
+    i = code.find("{", m.end() - 1 if code[m.end() - 1] == "{" else m.end())
+    if i < 0:
+        return None
+    depth, j = 0, i
+    while j < len(code):
+        if code[j] == "{":
+            depth += 1
+        elif code[j] == "}":
+            depth -= 1
+            if depth == 0:
+                return code[i + 1:j]
+        j += 1
+    return None
+
+
+def _norm(t):
+    """token-level normal form: no white space, no integer casts, no redundant `const`"""
+    t = re.sub(r"\s+", "", t)
+    t = re.sub(r"static_cast<[^<>]*>", "", t)
+    t = re.sub(r"\((?:size_t|uint64_t|int64_t|int|unsignedlong|Residu_t)\)", "", t)
+    t = re.sub(r"\((\w+(?:\.\w+)*\(\))\)", r"\1", t)          # (d.value()) -> d.value()
+    return t.replace("const", "")
+
+
+def _stmts(body):
+    """top-level statements of a body (split at ';' outside parentheses and braces; a braced block ends a statement)"""
+    out, depth, cur = [], 0, ""
+    for ch in body:
+        cur += ch
+        if ch in "({":
+            depth += 1
+        elif ch in ")}":
+            depth -= 1
+            if ch == "}" and depth == 0:
+                out.append(cur); cur = ""
+        elif ch == ";" and depth == 0:
+            out.append(cur); cur = ""
+    if cur.strip():
+        out.append(cur)
+    return [_norm(x) for x in out if x.strip()]
+
+
+FLAG_THEOREMS = {
+    "NORMALISES": ["C20_lcg_every_nonzero_seed", "C20_ring_nonzerorandom_every_nonzero_seed", "C20_modular_integer_randiter_seeding"],
+    "CLAMP": ["C20_gfq_randiter"],
+    "RESIZE": ["C20_poly_random_destination_independent", "C20_poly_random_gfq_destination_independent", "C20_poly_sequence_on_one_destination",
+               "C20_poly_sequence_gfq_on_one_destination", "C20_poly_request_with_its_domain"],
+    "ASSIGN": ["C20_randiter_assignment_continues_like_source"],
+}
+
+
 def read_params():
-    """constants of givrandom.h and the shape of the constructor of the tree under check"""
+    """constants of givrandom.h and the SHAPE of the bodies the theorems depend on, read from the tree under check by a token-level
+    structural match (comments, layout, integer casts, helper variables do not matter).  Every flag is True / False / None
+    (None = shape not recognised: reported as a broken obligation, never silently taken for the bad value)."""
     txt = open(os.path.join(vf.REPO, "src/kernel/system/givrandom.h")).read()
     vals = {}
     for name in ("MULTIPLYER", "MODULO", "HALFMOD"):
         m = re.search(r"#define\s+_GIVRAN_%s_\s+(\d+)(?:_ui64|ULL|UL|ull|ul)?\s*$" % name, txt, flags=re.M)
         vals[name] = int(m.group(1)) if m else None
     notes = []
-    code = re.sub(r"//[^\n]*|/\*.*?\*/", "", txt, flags=re.S)
-    m = re.search(r"GivRandom\s*\(\s*const\s+uint64_t\s+s\s*=\s*0\s*\)\s*:\s*_seed\s*\(\s*s\s*\)\s*\{(.*?)\n\s{8}\}", code, flags=re.S)
-    body = re.sub(r"\s+", "", m.group(1)) if m else None
-    loop = "while(!_seed){_seed=(uint64_t)BaseTimer::seed();}"
-    norm = "_seed=(_seed-1)%(_GIVRAN_MODULO_-1)+1;"
+    code = _strip(txt)
+    # --- GivRandom constructor: timer loop, then (repair 2b982d4) the normalisation of the seed
+    body = _body_after(code, r"GivRandom\s*\(\s*const\s+uint64_t\s+\w+\s*=\s*0\s*\)\s*:\s*_seed\s*\(\s*\w+\s*\)\s*\{")
     flag = None
-    if body == loop:
-        flag = False
-    elif body == loop + norm:
-        flag = True
-    else:
-        notes.append("constructor body of GivRandom not recognised: %r" % body)
-    op = re.search(r"uint64_t\s+operator\(\)\s*\(\)\s*const\s*\{(.*?)\}", code, flags=re.S)
-    opb = re.sub(r"\s+", "", op.group(1)) if op else None
-    if opb != "return_seed=(uint64_t)((int64_t)_GIVRAN_MULTIPLYER_*(int64_t)_seed%(int64_t)_GIVRAN_MODULO_);":
-        notes.append("GivRandom::operator()() body not recognised: %r" % opb)
+    if body is not None:
+        st = _stmts(body)
+        loop = [k for k, x in enumerate(st) if x.startswith("while(!_seed)") and "BaseTimer::seed()" in x]
+        norm = [k for k, x in enumerate(st) if re.fullmatch(r"_seed=\(?_seed-1\)?%\(?_GIVRAN_MODULO_-1\)?\+1;", x)]
+        if len(loop) == 1 and len(st) == 1:
+            flag = False
+        elif len(loop) == 1 and norm and norm[-1] > loop[0] and len(st) == 2:
+            flag = True
+    if flag is None:
+        notes.append("constructor body of GivRandom not recognised: %r" % (body and _stmts(body)))
+    vals["NORMALISES"] = flag
+    opb = _body_after(code, r"uint64_t\s+operator\(\)\s*\(\)\s*const\s*\{")
+    if opb is None or _norm(opb).replace("(", "").replace(")", "") != "return_seed=_GIVRAN_MULTIPLYER_*_seed%_GIVRAN_MODULO_;":
+        notes.append("GivRandom::operator()() body not recognised: %r" % (opb and _norm(opb)))
+    # --- givranditer.h: clamp of the sampling size, assignment of the sampling size
     try:
-        it = open(os.path.join(vf.REPO, "src/kernel/system/givranditer.h")).read()
-        it = re.sub(r"//[^\n]*|/\*.*?\*/", "", it, flags=re.S)
-        m = re.search(r"GIV_randIter\s*\(\s*const\s+Ring&\s*F\s*,.*?:\s*_ring\(F\)\s*,\s*_size\((.*?)\)\s*,\s*_givrand\(seed\)", it, flags=re.S)
-        init = re.sub(r"\s+", "", m.group(1)) if m else None
+        it = _strip(open(os.path.join(vf.REPO, "src/kernel/system/givranditer.h")).read())
     except OSError:
-        init = None
+        it = ""
+    m = re.search(r"GIV_randIter\s*\(\s*const\s+Ring&\s*F\s*,.*?:\s*_ring\(F\)\s*,\s*_size\((.*?)\)\s*,\s*_givrand\(seed\)", it, flags=re.S)
+    init = re.sub(r"\s+", "", m.group(1)) if m else None
     if init == "size?size:std::max(F.cardinality(),Residu_t(1))":
         vals["CLAMP"] = False
     elif init == "(size&&(!F.cardinality()||size<F.cardinality()))?size:std::max(F.cardinality(),Residu_t(1))":
         vals["CLAMP"] = True
     else:
-        vals["CLAMP"] = False
+        vals["CLAMP"] = None
         notes.append("GIV_randIter constructor initialiser of _size not recognised: %r" % init)
-    # operator= of GIV_randIter and ModularRandIter: does it assign the sampling size (repair 7a77cad)?
+    asg = []
+    for cls in (r"GIV_randIter<Ring,Type>", r"ModularRandIter<Ring>"):
+        b = _body_after(it, r"operator=\s*\(\s*const\s+%s\s*&\s*R\s*\)\s*\{" % cls)
+        nb = _norm(b) if b is not None else ""
+        asg.append(True if ("_givrand=R._givrand;" in nb and "_size=R._size;" in nb) else False if ("_givrand=R._givrand;" in nb and "_size" not in nb) else None)
+    vals["ASSIGN"] = asg[0] if asg[0] == asg[1] else None
+    if vals["ASSIGN"] is None:
+        notes.append("operator= of GIV_randIter / ModularRandIter not recognised: %r" % asg)
+    # --- Poly1Dom<Domain,Dense>::random(g, r, Degree d): unconditional resize to d+1 before the first indexed write; guard for d < 0 (fix-4)
     try:
-        bodies = [re.sub(r"\s+", "", b) for b in re.findall(r"operator=\s*\(const\s+(?:GIV_randIter<Ring,Type>|ModularRandIter<Ring>)&\s*R\)\s*\{(.*?)return\s*\*this;", it, flags=re.S)]
-    except NameError:
-        bodies = []
-    with_size = "if(this!=&R){_givrand=R._givrand;_size=R._size;const_cast<Ring&>(_ring)=R._ring;}"
-    without = "if(this!=&R){_givrand=R._givrand;const_cast<Ring&>(_ring)=R._ring;}"
-    vals["ASSIGN"] = (len(bodies) == 2 and all(b == with_size for b in bodies))
-    if not vals["ASSIGN"] and not (len(bodies) == 2 and all(b == without for b in bodies)):
-        notes.append("operator= of GIV_randIter / ModularRandIter not recognised (modelled as keeping the target's sampling size): %r" % bodies)
-    # Poly1Dom<Domain,Dense>::random(g, r, Degree d): statement list of the body
-    try:
-        pm = open(os.path.join(vf.REPO, "src/library/poly1/givpoly1misc.inl")).read()
-        pm = re.sub(r"#if 0.*?#endif", "", pm, flags=re.S)
-        pm = re.sub(r"//[^\n]*|/\*.*?\*/", "", pm, flags=re.S)
-        m = re.search(r"Poly1Dom<Domain,Dense>::random\(RandomIterator& g, typename Poly1Dom<Domain,Dense>::Rep& r, Degree d\) const\s*\{(.*?)\n    \}", pm, flags=re.S)
-        body = re.sub(r"\s+", "", m.group(1)) if m else None
+        pm = _strip(open(os.path.join(vf.REPO, "src/library/poly1/givpoly1misc.inl")).read())
     except OSError:
-        body = None
-    want = ("r.resize((size_t)d.value()+1);_domain.nonzerorandom(g,r[(size_t)d.value()]);"
-            "for(inti=(int)d.value();i--;)_domain.random(g,r[(size_t)i]);returnr;")
-    vals["RESIZE"] = (body == want)
-    if body != want:
-        notes.append("body of Poly1Dom::random(g, r, Degree) not recognised (modelled as growing its destination only): %r" % body)
-    fronts = {"random(g,r)": r"::random\(RandomIterator& g, Rep& r\) const\s*\{\s*return random\(g, r,Degree\(0\)\);",
-              "random(g,r,size)": r"::random\(RandomIterator& g, Rep& r, uint64_t s\) const\s*\{\s*return random\(g, r,Degree\(s-1\)\);",
-              "random(g,r,b)": r"::random\(RandomIterator& g, Rep& r, const Rep& b\) const\s*\{\s*return random\(g, r, b.size\(\)\);",
-              "nonzerorandom(g,r)": r"::nonzerorandom\(RandomIterator& g, Rep& r\) const\s*\{\s*return random\(g, r\);",
-              "nonzerorandom(g,r,size)": r"::nonzerorandom\(RandomIterator& g, Rep& r, uint64_t s\) const\s*\{\s*return random\(g, r, s\);",
-              "nonzerorandom(g,r,Degree)": r"::nonzerorandom\(RandomIterator& g, Rep& r, Degree d\) const\s*\{\s*return random\(g, r, d\);",
-              "nonzerorandom(g,r,b)": r"::nonzerorandom\(RandomIterator& g, Rep& r, const Rep& b\) const\s*\{\s*return random\(g, r, b\);"}
-    for nm, rx in sorted(fronts.items()):
-        if body is None or not re.search(rx, pm):
-            notes.append("Poly1Dom front end %s does not forward as modelled (preq_degree)" % nm)
+        pm = ""
+    body = _body_after(pm, r"Poly1Dom<Domain,Dense>::random\s*\(\s*RandomIterator\s*&\s*g\s*,[^)]*\bDegree\s+d\s*\)\s*const\s*\{")
+    vals["RESIZE"], vals["POLYGUARD"] = None, None
+    if body is not None:
+        st = _stmts(body)
+        first_write = next((k for k, x in enumerate(st) if "r[" in x), len(st))
+        helpers = dict(re.findall(r"^(?:size_t|uint64_t|auto)?(\w+)=(d\.value\(\)\+1);$", x)[0] for x in st[:first_write] if re.findall(r"^(?:size_t|uint64_t|auto)?(\w+)=(d\.value\(\)\+1);$", x))
+        res = [k for k, x in enumerate(st[:first_write]) if "r.resize(" in x]
+        if not res:
+            vals["RESIZE"] = False
+        else:
+            x = st[res[0]]
+            mm = re.fullmatch(r"r\.resize\((.*)\);", x)
+            if mm and (mm.group(1) == "d.value()+1" or mm.group(1) in helpers):
+                vals["RESIZE"] = True
+            elif x.startswith("if("):
+                vals["RESIZE"] = False          # conditional: the destination is not always brought to d+1 coefficients
+        ifs = [x for x in st[:(res[0] if res else first_write)] if x.startswith("if(")]
+        if not ifs:
+            vals["POLYGUARD"] = False
+        elif len(ifs) == 1 and re.fullmatch(r"if\(d(?:\.value\(\))?(?:<0|<=-1|==Degree::deginfty|==-1)\)d=(?:0|Degree\(0\));", ifs[0]):
+            vals["POLYGUARD"] = True
+        if not (first_write < len(st) and "nonzerorandom(g,r[d.value()])" in st[first_write]):
+            vals["RESIZE"] = None
+    if vals["RESIZE"] is None or vals["POLYGUARD"] is None:
+        notes.append("body of Poly1Dom::random(g, r, Degree) not recognised: %r" % (body and _stmts(body)))
+    fronts = {"random(g,r)": (r"::random\s*\(\s*RandomIterator& g, Rep& r\s*\)\s*const\s*\{", "returnrandom(g,r,Degree(0));"),
+              "random(g,r,size)": (r"::random\s*\(\s*RandomIterator& g, Rep& r, uint64_t s\s*\)\s*const\s*\{", "returnrandom(g,r,Degree(s-1));"),
+              "random(g,r,b)": (r"::random\s*\(\s*RandomIterator& g, Rep& r, const Rep& b\s*\)\s*const\s*\{", "returnrandom(g,r,b.size());"),
+              "nonzerorandom(g,r)": (r"::nonzerorandom\s*\(\s*RandomIterator& g, Rep& r\s*\)\s*const\s*\{", "returnrandom(g,r);"),
+              "nonzerorandom(g,r,size)": (r"::nonzerorandom\s*\(\s*RandomIterator& g, Rep& r, uint64_t s\s*\)\s*const\s*\{", "returnrandom(g,r,s);"),
+              "nonzerorandom(g,r,Degree)": (r"::nonzerorandom\s*\(\s*RandomIterator& g, Rep& r, Degree d\s*\)\s*const\s*\{", "returnrandom(g,r,d);"),
+              "nonzerorandom(g,r,b)": (r"::nonzerorandom\s*\(\s*RandomIterator& g, Rep& r, const Rep& b\s*\)\s*const\s*\{", "returnrandom(g,r,b);")}
+    for nm, (rx, want) in sorted(fronts.items()):
+        b = _body_after(pm, rx)
+        if b is None or _norm(b) != want:
+            notes.append("Poly1Dom front end %s does not forward as modelled (preq_degree): %r" % (nm, b and _norm(b)))
+    # --- sized draws of Modular<integral> and GFqDom: guards for sampling sizes 0 / 1 (fix-5)
+    sized = []
+    try:
+        mi = _strip(open(os.path.join(vf.REPO, "src/kernel/ring/modular-integral.h")).read())
+        gq = _strip(open(os.path.join(vf.REPO, "src/kernel/field/gfq.inl")).read())
+    except OSError:
+        mi = gq = ""
+    b = _body_after(mi, r"Element&\s*random\s*\(\s*Random& g, Element& r, const Residu_t& size\s*\)\s*const\s*\{")
+    nb = _norm(b) if b else ""
+    sized.append(True if nb == "returninit(r,size?g()%size:g());" else False if nb == "returninit(r,g()%size);" else None)
+    b = _body_after(mi, r"Element&\s*nonzerorandom\s*\(\s*Random& g, Element& a, const Residu_t& size\s*\)\s*const\s*\{")
+    nb = _norm(b) if b else ""
+    sized.append(True if "init(a,size>1?g()%size:g())" in nb else False if "init(a,g()%size)" in nb else None)
+    b = _body_after(gq, r"GFqDom<Any>::random\s*\(\s*randIter& g, Rep& a, const Residu_t& s\s*\)\s*const\s*\{")
+    nb = _norm(b) if b else ""
+    sized.append(True if _norm("a=Rep((UTT)(g())%(s?s:_q));") in nb else False if _norm("a=Rep((UTT)(g())%s);") in nb else None)
+    b = _body_after(gq, r"GFqDom<Any>::nonzerorandom\s*\(\s*randIter& g, Rep& a, const Residu_t& s\s*\)\s*const\s*\{")
+    nb = _norm(b) if b else ""
+    sized.append(True if _norm("a=Rep(((UTT)(g())%((s>1?s:_q)-1))+1);") in nb else False if _norm("a=Rep(((UTT)(g())%(s-1))+1);") in nb else None)
+    vals["SIZED"] = sized[0] if len(set(sized)) == 1 else None
+    if vals["SIZED"] is None:
+        notes.append("sized random / nonzerorandom of Modular<integral> / GFqDom not recognised or not uniformly guarded: %r" % sized)
+    # --- the source documents the native-integer overloads of the Integer range constructions as BIT-SIZE draws
+    doc = []
+    try:
+        lines = open(os.path.join(vf.REPO, "src/kernel/gmp++/gmp++_int_rand.inl")).read().splitlines()
+    except OSError:
+        lines = []
+    for needle in ("synonyms CAREFULL: when m is integer, meaning is different", "random number in [[2^m,2^M-1]]",
+                   "returns a random integer \\p r of at most \\p m bits", "of the size \\p m bits, exactly"):
+        hit = [(k + 1, l.strip()) for k, l in enumerate(lines) if needle in l]
+        doc.append("gmp++_int_rand.inl:%d: %s" % hit[0] if hit else None)
+    vals["NATIVE_DOC"] = doc
+    if None in doc:
+        notes.append("gmp++_int_rand.inl no longer carries the comments that document native arguments as bit sizes: %r" % doc)
     return vals, flag, notes
 
 
+def _b(v):
+    return "true" if v else "false"
+
+
 def write_params(vals, flag):
-    text = ("(* GENERATED by checks/C20.py from src/kernel/system/givrandom.h of the tree under check\n"
-            "   (#define _GIVRAN_MULTIPLYER_ / _GIVRAN_MODULO_ / _GIVRAN_HALFMOD_; giv_ctor_normalises = the constructor ends with\n"
-            "   `_seed = (_seed - 1) %% (_GIVRAN_MODULO_ - 1) + 1;`).  Rewritten on every run;\n"
-            "   the model and every proof below it are re-checked against these values. *)\n"
+    text = ("(* GENERATED by checks/C20.py from the tree under check (givrandom.h: the three #defines and the shape of the constructor;\n"
+            "   givranditer.h, givpoly1misc.inl, modular-integral.h, gfq.inl: the shape of the bodies named below).  Written only when the\n"
+            "   content changes; the model and every proof below it are re-checked against these values. *)\n"
             "From Coq Require Import ZArith.\nLocal Open Scope Z_scope.\n"
             "Definition giv_multiplier : Z := %d.\nDefinition giv_modulo : Z := %d.\nDefinition giv_halfmod : Z := %d.\n"
+            "(* the constructor ends with `_seed = (_seed - 1) %% (_GIVRAN_MODULO_ - 1) + 1;` (repair 2b982d4) *)\n"
             "Definition giv_ctor_normalises : bool := %s.\n"
             "(* GIV_randIter keeps min(size, cardinality) as its sampling size (givranditer.h) *)\n"
             "Definition giv_randiter_clamps : bool := %s.\n"
-            "(* Poly1Dom<Domain,Dense>::random(g, r, Degree d) starts with r.resize((size_t)d.value()+1); (givpoly1misc.inl) *)\n"
+            "(* Poly1Dom<Domain,Dense>::random(g, r, Degree d) resizes r to d+1 coefficients unconditionally before its first write (givpoly1misc.inl) *)\n"
             "Definition poly_random_resizes : bool := %s.\n"
             "(* operator= of GIV_randIter / ModularRandIter assigns the sampling size too (givranditer.h, repair 7a77cad) *)\n"
             "Definition randiter_assign_copies_size : bool := %s.\n"
-            % (vals["MULTIPLYER"], vals["MODULO"], vals["HALFMOD"], "true" if flag else "false", "true" if vals.get("CLAMP") else "false",
-               "true" if vals.get("RESIZE", True) else "false", "true" if vals.get("ASSIGN", True) else "false"))
+            "(* sized random / nonzerorandom of Modular<integral> and GFqDom treat sampling size 0 (and 1 for non-zero draws) as the entire ring (fix-5) *)\n"
+            "Definition sized_draws_guard_small_sizes : bool := %s.\n"
+            "(* Poly1Dom::random(g, r, Degree d) starts with `if (d < 0) d = 0;` (fix-4) *)\n"
+            "Definition poly_random_guards_negative_degree : bool := %s.\n"
+            % (vals["MULTIPLYER"], vals["MODULO"], vals["HALFMOD"], _b(flag), _b(vals.get("CLAMP")), _b(vals.get("RESIZE")), _b(vals.get("ASSIGN")),
+               _b(vals.get("SIZED")), _b(vals.get("POLYGUARD"))))
     vf.write_if_changed(os.path.join(vf.coq_dir(AREA), "Params.v"), text)
 
 
@@ -253,6 +376,28 @@ def int_case_model(op, var, args):
     if op in ("nz_T", "nz_Tv"):
         return "nz_2e", apm, [n], (lambda r: r != 0 and rng_pred(1 << n)(r)), True
     raise KeyError(op)
+
+
+WIDTH = {"int": 32, "uint": 32, "long": 64, "ulong": 64, "short": 16}
+
+
+def int_native(op, args):
+    """native-integer overloads: (model op of Model3 Part K, [width, raw argument(s)]) -- the MODEL resolves the overload (the argument is a
+    number of bits); None for the Integer-typed forms"""
+    if op in ("lt_u64",):
+        return "lt", [64, int(args[0])]
+    if op in ("bt_u64", "bt_u64v"):
+        return "bt", [int(args[0]), int(args[1])]
+    if not args or args[0] not in WIDTH:
+        return None
+    w = WIDTH[args[0]]
+    if op in ("lt_Tv", "rnd_T", "rnd_Tv"):
+        return "lt", [w, int(args[1])]
+    if op in ("nz_T", "nz_Tv"):
+        return "nz", [w, int(args[1])]
+    if op in ("bt_R", "bt_Rv"):
+        return "bt", [int(args[1]), int(args[2])]
+    return None
 
 
 def trace_ok(tok):
@@ -516,6 +661,22 @@ def gen_cases(rng, tier, vals, flag):
                         pass
                     n_ = 21 if thorough else 9
                     add(fam="mii", seed=s, size=size, p=p, n=n_, ctor=ctor, nz=nzok, line="mii %d %d %d %d %d %d" % (s, size, p, n_, ctor, nzok))
+    # --- sampling size 0 / 1, polynomial size 0: in forked children under a CPU-time limit (division by zero, write outside the vector, endless loop)
+    for name, q_ in [("i32", 101), ("i8", 13), ("u64", 4294967291), ("u8", 251), ("i64_u128", 9223372036854775783), ("gfq32", "101"), ("gfq32", "7^2"), ("gfq64", "5^3")]:
+        for what, szs in (("rnd", [0, 1]), ("nz", [0, 1, 2])):
+            for size in szs:
+                s = good[(size + len(name)) % len(good)]
+                op = "random_sz" if what == "rnd" else "nzrandom_sz"
+                add(fam="edge", what=what, ring=name, p=q_, seed=s, size=size, line="fork 400 ring %s %s %s %d 1 %d" % (name, q_, op, s, size))
+    for name, q_ in [("i32", 101), ("d", 3), ("gfq32", "3^9"), ("u64", 3)]:
+        for form in ("size", "like", "deg", "nzsize", "nzlike", "nzdeg"):
+            for how in (0, 1):
+                s = good[(how + len(form)) % len(good)]
+                add(fam="edge", what="poly", ring=name, p=q_, seed=s, size=0, form=form, how=how, line="fork 400 poly %s %s %s %d -1 %d" % (name, q_, form, s, how))
+    # --- two live GMP-based iterators share the process-wide generator
+    for cls, parg in (("rii", 30), ("mii", 1000003), ("mii", 2**64 + 13)):
+        for (s1, s2) in [(5, 9), (42, 5), (2**40 + 1, 7)]:
+            add(fam="gmpshare", cls=cls, seed=s1, seed2=s2, k=4, parg=parg, line="gmpshare %s %d %d 4 %d" % (cls, s1, s2, parg))
     # --- Part D
     for K in range(6, 11):
         for s in [0, 1, 42, rng.bits(64), U64 - 1]:
@@ -540,7 +701,7 @@ def model_line(c, out, vals):
     """model input line for case c given the implementation output `out` (needed for traces / timer state); None = no model run"""
     fam = c["fam"]
     if out == "TIMEOUT" or out.startswith("NONREPRO") or out.startswith("UN") or out.startswith("BAD"):
-        if fam in ("lcg", "ring", "poly"):
+        if fam in ("lcg", "ring", "poly", "edge"):
             pass
         else:
             return None
@@ -563,6 +724,15 @@ def model_line(c, out, vals):
             si = ext_size_i(c["s"], i)
             ops.append("E%d" % c["e"] if c["op"] in ("random", "nzrandom") else "X%d,%d" % (c["e"], si) if c["op"].endswith("_s") else "B%d" % si)
         return "polyseq gfq %d %d 64 %d %s" % (c["p"], c["seed"], c["e"] + 4, " ".join(ops))
+    if fam == "edge":
+        t = RINGS[c["ring"]]
+        if c["what"] == "poly":
+            return "edge poly %s %d %d 0 %d %s" % (t["kind"] if t["kind"] != "gfq" else "gfq", card(c["p"]), c["seed"], t["bits"] or 32, c["form"])
+        return "edge %s %s %d %d %d %d" % (c["what"], t["kind"], card(c["p"]), c["seed"], c["size"], t["bits"] or 32)
+    if fam == "gmpshare":
+        if " ;" not in out:
+            return None
+        return "gmpshare %s %d %d %d %d | %s" % (c["cls"], c["seed"], c["seed2"], c["k"], c["parg"], out.split(" ;", 1)[1].strip())
     if fam == "polyseq":
         t = RINGS[c["ring"]]
         r0len = {0: 0, 1: 12, 2: 1, 3: 8, 4: 61}[c["how"]]
@@ -592,6 +762,9 @@ def model_line(c, out, vals):
     if fam == "int":
         mop, ap, margs, pred, nz = int_case_model(c["op"], c["var"], c["args"])
         toks = [t for t in toks if not t.startswith("s")]
+        nat = int_native(c["op"], c["args"])
+        if nat is not None:
+            return "intN %s %s %s | %s" % (nat[0], ap, " ".join(str(a) for a in nat[1]), " ".join(toks))
         return "int %s %s %s | %s" % (mop, ap, " ".join(str(a) for a in margs), " ".join(toks))
     if fam == "riiseq":
         toks = [t for t in toks if not t.startswith("s")]
@@ -668,6 +841,9 @@ CALL_FORMS_LEGEND = {
     "mii/ctor<k>": "ModularRandIter<Modular<Integer>>: constructors (F) (F,seed) (F,seed,size); random(a), (a), (), random(); NonZeroRandIter random(a), copy (a), ()",
     "qf/<form>": "QField<Rational>::random / nonzerorandom: (g,r,int64) (g,r) (g,r,const Rep&)",
     "gfqx/w<bits>": "GFqExtFast<int32_t>::random / GFqExt<int64_t>::random (+ table look-ups at the model's indices in the same process)",
+    "edge/<what>/size<k>": "forked child, CPU-time limit: F.random(g,a,size) / F.nonzerorandom(g,a,size) with sampling size 0, 1, 2 (Modular<integral> 5 types, GFqDom 3 fields); "
+                           "Poly1Dom random / nonzerorandom (g,r,uint64_t 0), (g,r,empty b), (g,r,Degree(-1)) with fresh and used destinations",
+    "gmpshare/<class>": "two live RandomIntegerIterator / ModularRandIter<Modular<Integer>> objects on the process-wide GMP generator: A alone; A, then B built, then A again; A, B, then A",
     "ru, rm/<mg>, modru/<ring>/<op>": "RecInt::rand(ruint<K>) K=6..10, rand(rint<K>), rand(rmint<K,MGI|MGA>), a.random(); Modular<ruint<K>[,ruint<K+1>]> and Montgomery<ruint<K>> random / nonzerorandom / RandIter",
 }
 
@@ -704,7 +880,19 @@ def form_keys(c):
         return ["modru/%s/%s" % (c["ring"], c["op"])]
     if fam == "ru":
         return ["ru/K%d" % c["K"]]
+    if fam == "edge":
+        return ["edge/%s/size%d" % (c["what"] if c["what"] != "poly" else "poly/" + c["form"], c["size"])]
+    if fam == "gmpshare":
+        return ["gmpshare/" + c["cls"]]
     return [fam]
+
+
+def inconclusive(chk, what):
+    """a stream our own tooling could not finish (wall-clock time-out, lost process): listed in the evidence, said aloud, never a pass of that stream"""
+    chk.cov.setdefault("inconclusive", []).append(what)
+    chk.cov.setdefault("floor_missed", []).append(what)
+    chk.notes.append("INCONCLUSIVE: " + what)
+    print("INCONCLUSIVE property=C20 %s" % what)
 
 
 class GfqxSession:
@@ -762,10 +950,25 @@ def main(tier, replay=None):
                        "model hand-written after the code; tie = correspondence on generated cases incl. GMP request traces"]
     if None in [vals[k] for k in ("MULTIPLYER", "MODULO", "HALFMOD")]:
         chk.broke("cannot read _GIVRAN_MULTIPLYER_/_GIVRAN_MODULO_/_GIVRAN_HALFMOD_ from givrandom.h: %s" % vals)
-        vals = {"MULTIPLYER": 950706376, "MODULO": 2147483647, "HALFMOD": 1073741824, "CLAMP": vals.get("CLAMP", False), "RESIZE": vals.get("RESIZE", True), "ASSIGN": vals.get("ASSIGN", True)}
+        vals = {"MULTIPLYER": 950706376, "MODULO": 2147483647, "HALFMOD": 1073741824, "CLAMP": vals.get("CLAMP"), "RESIZE": vals.get("RESIZE"), "ASSIGN": vals.get("ASSIGN"), "SIZED": vals.get("SIZED"), "POLYGUARD": vals.get("POLYGUARD"),
+                "NORMALISES": flag, "NATIVE_DOC": vals.get("NATIVE_DOC")}
     else:
         write_params(vals, bool(flag))
     chk.notes += pnotes
+    # the theorems about the bodies the tree HAS are stated as `flag = true -> P`: a flag with the bad value (or a shape that was
+    # not recognised) is a broken obligation that names them; it is never a silently "proved" refutation
+    for fk, thms in sorted(FLAG_THEOREMS.items()):
+        if vals.get(fk) is not True:
+            chk.broke("source flag %s is %s in the tree under check: %s %s stated under %s = true and do(es) not apply to it"
+                      % (fk, {False: "false (the body lacks the statement)", None: "unknown (shape not recognised)"}[vals.get(fk)], ", ".join(thms),
+                         "is" if len(thms) == 1 else "are", fk))
+    for fk in ("SIZED", "POLYGUARD"):
+        if vals.get(fk) is None:
+            chk.broke("source flag %s unknown (shape of the sized draws / of Poly1Dom::random not recognised): the edge family cannot tell what to expect" % fk)
+    if None in (vals.get("NATIVE_DOC") or [None]):
+        chk.broke("gmp++_int_rand.inl no longer documents native-integer arguments as bit sizes (level_claimed quotes these comments): %s" % vals.get("NATIVE_DOC"))
+    chk.cov["source_flags"] = {k: vals.get(k) for k in ("NORMALISES", "CLAMP", "RESIZE", "ASSIGN", "SIZED", "POLYGUARD")}
+    chk.cov["native_overloads_documented_as_bit_sizes"] = vals.get("NATIVE_DOC")
     # 1. proofs (+ extraction)
     res = vf.coq_check_props(AREA, timeout=900)
     chk.proof_result(res, AREA)
@@ -779,7 +982,11 @@ def main(tier, replay=None):
             break
         himpl, l2 = vf.build_harness("c20_random.C", extra_flags=WRAP)
     if himpl is None:
-        chk.broke("implementation harness does not compile against /repo", l2)
+        if "libgivaro_verif.a" in l2 and ("No such file" in l2 or "cannot find" in l2):
+            # the shared library cache was pruned under us four times in a row: a tooling problem, not a verdict about the property
+            inconclusive(chk, "the cached static library vanished during four successive harness builds (cache shared with concurrent checks); nothing was executed")
+        else:
+            chk.broke("implementation harness does not compile against /repo", l2)
         return chk.finish()
     # 3. cases
     cases, smax = gen_cases(rng, tier, vals, flag)
@@ -831,14 +1038,20 @@ def main(tier, replay=None):
             iout.append(o_)
     if rc == 124:
         # our own tooling ran out of wall-clock time (machine load): inconclusive, recorded, not a verdict about the property
-        chk.cov["inconclusive"] = "implementation harness: %d of %d cases answered within 1500 s wall clock" % (len(iout), len(cases))
-        chk.notes.append(chk.cov["inconclusive"])
+        inconclusive(chk, "implementation harness: %d of %d cases answered within 1500 s wall clock" % (len(iout), len(cases)))
         if gsess:
             gsess.close()
         return chk.finish()
     # the per-case limit is CPU time of the harness process (ITIMER_PROF), so it does not depend on the load of the machine; a
     # TIMEOUT is nevertheless confirmed by running the case again with 25 times the limit before it is reported
-    tmo = [i for i, o in enumerate(iout) if o == "TIMEOUT"] if (rc == 0 and len(iout) == len(cases)) else []
+    tmo = [i for i, o in enumerate(iout) if o == "TIMEOUT" and cases[i]["fam"] != "edge"] if (rc == 0 and len(iout) == len(cases)) else []
+    # (edge cases run in forked children with their own budget; a TIMEOUT there is confirmed below with a 5x budget)
+    etmo = [i for i, o in enumerate(iout) if o == "TIMEOUT" and cases[i]["fam"] == "edge"] if (rc == 0 and len(iout) == len(cases)) else []
+    if etmo:
+        rc3, o3, _ = vf.run_lines(himpl, "".join(cases[i]["line"].replace("fork 400 ", "fork 2000 ", 1) + "\n" for i in etmo), timeout=900, args=["%d" % LIMIT_MS])
+        if rc3 == 0 and len(o3) == len(etmo):
+            for i, o in zip(etmo, o3):
+                iout[i] = o
     if tmo:
         todo, back = tmo[:10], 0
         while todo:
@@ -871,8 +1084,7 @@ def main(tier, replay=None):
                 idx.append(i); lines.append(ml)
         rc, mo, merr = vf.run_lines(drv, "".join(l + "\n" for l in lines), timeout=1500)
         if rc == 124:
-            chk.cov["inconclusive"] = "model driver: %d of %d lines answered within 1500 s wall clock; correspondence not evaluated" % (len(mo), len(lines))
-            chk.notes.append(chk.cov["inconclusive"])
+            inconclusive(chk, "model driver: %d of %d lines answered within 1500 s wall clock; correspondence not evaluated" % (len(mo), len(lines)))
         elif rc != 0 or len(mo) != len(lines):
             chk.broke("model driver failed (rc=%s, %d/%d lines)" % (rc, len(mo), len(lines)), merr)
         else:
@@ -905,7 +1117,67 @@ def main(tier, replay=None):
             fails.append((site, klass, expected, detail))
         mcmp = None         # (impl canonical text, model text) to compare
         try:
-            if out.startswith("NONREPRO"):
+            if fam == "edge":
+                t = RINGS[c["ring"]]
+                q = card(c["p"])
+                gf = t["kind"] == "gfq"
+                if c["what"] == "poly":
+                    site, klass, inside = "Poly1Dom::random(g, r, size)", "size 0", False
+                    want = "a constant polynomial (degree 0, non-zero, canonical) as the unsized overload draws"
+                elif c["what"] == "rnd":
+                    site, klass, inside = ("GFqDom" if gf else "Modular") + "::random(g, a, size)", "size 0", c["size"] >= 1
+                    want = "a canonical element (size 0 = the entire ring, givranditer.h)"
+                else:
+                    site, klass, inside = ("GFqDom" if gf else "Modular") + "::nonzerorandom(g, a, size)", "size <= 1", c["size"] >= 2
+                    want = "a non-zero canonical element"
+                if inside:
+                    klass = "size %d (inside the domain); %s" % (c["size"], c["ring"])
+                canon = None
+                if out.startswith("CRASH") or out == "TIMEOUT":
+                    fail(site, klass, want, "the call %s" % ("does not return (CPU budget of the forked child used up)" if out == "TIMEOUT" else "dies: " + out))
+                    canon = "NORETURN" if out == "TIMEOUT" else "CRASH"
+                elif out.startswith("NONREPRO") or out.startswith("UN") or out.startswith("BAD"):
+                    chk.broke("edge case not executed: %s -> %s" % (c["line"], out[:100]))
+                elif c["what"] == "poly":
+                    head, _, tail = out.partition(" | ")
+                    dz, _, coefs = head.partition(" ;")
+                    deg, size_ = [int(x) for x in dz.split()]
+                    el = parse_elems(coefs)
+                    if deg != 0 or size_ != 1 or el[-1][2] or (gf and el[-1][0] == 0) or not raw_ok(t["raw"], q, el[0][0]):
+                        fail(site, klass, want, "degree %d size %d" % (deg, size_))
+                    canon = "VAL %d ; %s | %s" % (size_, " ".join(str(e[0]) if gf else str(e[1] % q) for e in el), tail.strip())
+                else:
+                    head, _, tail = out.partition("| ")
+                    el = parse_elems(head)
+                    raw, val, z, _cp = el[0]
+                    if not raw_ok(t["raw"], q, raw) or (c["what"] == "nz" and (z or (gf and raw == 0))):
+                        fail(site, klass, want, "raw %d" % raw)
+                    canon = "VAL %s | %s" % (raw if gf else val, tail.strip())
+                mm = mout[i]
+                if mm is not None and canon is not None:
+                    if mm == "CRASH":
+                        chk.cov["edge_outside_domain_undefined_behaviour"] = chk.cov.get("edge_outside_domain_undefined_behaviour", 0) + 1      # nothing to compare: any outcome
+                    else:
+                        mcmp = (canon, mm)
+            elif fam == "gmpshare":
+                resu, _, tr = out.partition(" ;")
+                r1, r2, r3 = [x.split() for x in resu.split(" / ")]
+                k = c["k"]
+                bound_ok = (lambda x: 0 <= int(x) < (1 << 30)) if c["cls"] == "rii" else (lambda x: 0 <= int(x) < c["parg"])
+                if not all(bound_ok(x) for x in r1 + r2 + r3):
+                    fail("GMP-based iterators sharing the process-wide generator", c["cls"], "every draw in its documented set")
+                # sequential part: the first k draws after constructing A are the same in run 1 and run 2 (nothing else happened in between)
+                if r1[:k] != r2[:k]:
+                    fail("GMP-based iterator, sequential use", c["cls"], "same seed, same first draws", "%s vs %s" % (r1[:k], r2[:k]))
+                # documented global seeding (random-integer.h: 'the provided seed will be used, *** globally ***'): after B is built the draws
+                # through A are those of B's seeding
+                if r2[k:] != r3:
+                    fail("GMP-based iterators sharing the process-wide generator", c["cls"] + "; stream after a second seeding",
+                         "the draws through A after B(seed2) was built equal the draws after A(seed1); B(seed2) with nothing in between", "%s vs %s" % (r2[k:], r3))
+                chk.cov["gmp_interleaved_changes_the_first_iterators_stream"] = chk.cov.get("gmp_interleaved_changes_the_first_iterators_stream", 0) + (1 if r1[k:] != r2[k:] else 0)
+                if mout[i] is not None:
+                    mcmp = (resu.strip(), mout[i])
+            elif out.startswith("NONREPRO"):
                 fail(fam + ": same seed, two runs", sc, "identical sequences", "two generators built with the same seed differ")
             elif out == "TIMEOUT":
                 site = {"ring": "nonzerorandom(GivRandom)", "poly": "Poly1Dom::random(GivRandom)"}.get(fam, fam + " draw")
@@ -973,7 +1245,8 @@ def main(tier, replay=None):
                     vals_i = [str(e[1] % U64) for e in el]
                 else:
                     vals_i = [str(e[1]) for e in el]
-                if c["ring"] == "bi64" and sc == "seed > (2^63-1)/multiplier":
+                if c["ring"] == "bi64" and sc == "seed > (2^63-1)/multiplier" and flag is not True:
+                    # only on a tree WITHOUT the normalising constructor (history): there
                     # draws >= 2^63 reach ModularBalanced<int64_t>::init(uint64_t), which C04 records as a known finding
                     # (values >= 2^63 wrap to negative numbers before the reduction): only the generator state is tied here
                     chk.cov["bi64_values_not_tied_for_overflowing_seeds"] = chk.cov.get("bi64_values_not_tied_for_overflowing_seeds", 0) + 1
@@ -1120,7 +1393,7 @@ def main(tier, replay=None):
                         a = [str(e[1] % U64) for e in el]; b = [str(int(x) % U64) for x in mout[i].split()] if mout[i] != "NONE" else ["NONE"]
                     else:
                         a = [str(e[1] % q) for e in el]; b = [str(int(x) % q) for x in mout[i].split()] if mout[i] != "NONE" else ["NONE"]
-                    if not (c["ring"] == "bi64" and sc != "good seed"):
+                    if not (c["ring"] == "bi64" and sc != "good seed" and flag is not True):      # unconditional on a tree with the normalising constructor
                         mcmp = (" ".join(a), " ".join(b))
             elif fam == "qf":
                 resu, _, tr = out.partition(" ;")
@@ -1306,7 +1579,7 @@ def main(tier, replay=None):
                 break
             o2.append(o_)
         if gsess.timed_out:
-            chk.cov["inconclusive"] = "second pass for GFqExtFast::random did not finish within %d s wall clock" % GfqxSession.WALL
+            inconclusive(chk, "second pass for GFqExtFast::random did not finish within %d s wall clock" % GfqxSession.WALL)
         elif len(o2) != len(gfqx_second):
             chk.broke("second harness pass (gfqxchk) failed: %d/%d lines" % (len(o2), len(gfqx_second)))
         else:
@@ -1320,6 +1593,18 @@ def main(tier, replay=None):
         chk.cov["gfqext_draws_tied_through_model_indices"] = sum(len(x[1]) for x in gfqx_second)
     if gsess:
         gsess.close()
+    # floor on what was actually compared: a run that stays below it (tooling trouble) says so; it is not a pass of those streams
+    nthm = len(res.get("theorems", []))
+    floor = {"cases_judged_by_the_oracle": len(cases), "correspondence_comparisons": ncorr, "correspondence_floor": int(0.97 * len(cases)),
+             "theorems_in_Properties": nthm, "print_assumptions_reports": len(res.get("assumptions", {})), "theorems_floor": 70}
+    missed = []
+    if ncorr < floor["correspondence_floor"]:
+        missed.append("only %d of %d cases were compared with the extracted model (floor %d)" % (ncorr, len(cases), floor["correspondence_floor"]))
+    if nthm < floor["theorems_floor"] or len(res.get("assumptions", {})) < nthm:
+        missed.append("%d theorems, %d Print Assumptions reports (floor %d)" % (nthm, len(res.get("assumptions", {})), floor["theorems_floor"]))
+    chk.cov["floor"] = floor
+    for m_ in missed:
+        inconclusive(chk, "floor missed: " + m_)
     if len(chk.broken) > 20:
         chk.broken = chk.broken[:20] + [{"what": "... %d more" % (len(chk.broken) - 20), "detail": ""}]
     chk.cov["rule"] = ("every call form of GivRandom, of the Integer range constructions (template <true>/<false>/default, by-reference and "
